@@ -88,6 +88,7 @@ type endState struct {
 	wfailAt     int64
 	werr        error
 	bracket     int
+	werrHits    int
 	smallReads  int // cap every Read to this many bytes when > 0
 	maxReadSeen int
 	timer       *time.Timer
@@ -262,6 +263,7 @@ func (c *Conn) Write(b []byte) (int, error) {
 			k = 0
 		}
 		err = e.werr
+		e.werrHits++
 	}
 	n.Writes = append(n.Writes, WriteRec{Side: c.s, N: k, Off: d.written, Bracket: e.bracket, Seq: n.seq})
 	d.pending = append(d.pending, b[:k]...)
@@ -515,6 +517,13 @@ func (n *Net) WriteErrAt(s Side, off int64, err error) {
 	defer n.mu.Unlock()
 	n.e[s].wfailAt = off
 	n.e[s].werr = err
+}
+
+// WriteErrHits returns how many Write calls of side s got the injected error.
+func (n *Net) WriteErrHits(s Side) int {
+	n.mu.Lock()
+	defer n.mu.Unlock()
+	return n.e[s].werrHits
 }
 
 // SmallReads caps every Read of side s to k bytes (0 = no cap).
